@@ -42,8 +42,12 @@ pub enum Kind {
     EdgeByOtherAuthor,
     EdgeTombstoneOwn,
     EdgeTombstoneForeign,
+    /// a deletion record for somebody else's reference whose creation date is one millisecond off the stored
+    /// reference: it names no stored reference version, so it may remove nothing unless its author holds the
+    /// all-rows right
+    EdgeTombstoneForeignOtherCdate,
 }
-const KINDS: [Kind; 12] = [
+const KINDS: [Kind; 13] = [
     Kind::NewP,
     Kind::NewQ,
     Kind::NewerOwnVersion,
@@ -56,6 +60,7 @@ const KINDS: [Kind; 12] = [
     Kind::EdgeByOtherAuthor,
     Kind::EdgeTombstoneOwn,
     Kind::EdgeTombstoneForeign,
+    Kind::EdgeTombstoneForeignOtherCdate,
 ];
 
 #[derive(Clone, Copy, Debug, PartialEq, Eq, Hash)]
@@ -367,6 +372,8 @@ pub async fn run_case(w: &World, c: &Case, out: &mut Outcome, verbose: bool) -> 
         NodeGone(Uid, i64),
         EdgeStored(Uid, String, Uid, Vec<u8>),
         EdgeGone(Uid, String, Uid, i64),
+        /// the stored reference itself has disappeared (whatever the deletion log says)
+        EdgeRemoved(Uid, String, Uid),
     }
     let probe: Probe;
     let mut pulled = room;
@@ -453,6 +460,21 @@ pub async fn run_case(w: &World, c: &Case, out: &mut Outcome, verbose: bool) -> 
             victim_nodes.push(qn);
             victim_edges.push(e);
             right_needed = vec![(false, "ns.P", if c.kind == Kind::EdgeTombstoneOwn { Right::Own } else { Right::All })];
+        }
+        Kind::EdgeTombstoneForeignOtherCdate => {
+            let pn = signed_node(&u.p_short, room, other, d - 3000, d - 2000, pj("src"), None);
+            let qn = signed_node(&u.q_short, room, other, d - 3000, d - 2000, qj("dst"), None);
+            let mut e = Edge { src: pn.id, src_entity: u.p_short.clone(), label: u.p_qs.clone(), dest: qn.id, cdate: d - 2000, ..Default::default() };
+            e.sign(&signing_key_for((other + 1) as u8)).unwrap();
+            let mut named = e.clone();
+            named.cdate += 1;
+            probe = Probe::EdgeRemoved(e.src, e.label.clone(), e.dest);
+            mark.push((u.p_short.clone(), d));
+            sender_etomb.push((room, named, d, author));
+            victim_nodes.push(pn);
+            victim_nodes.push(qn);
+            victim_edges.push(e);
+            right_needed = vec![(false, "ns.P", Right::All)];
         }
     }
     // integrity variants on the forged node (the last node pushed for node kinds)
@@ -566,6 +588,12 @@ pub async fn run_case(w: &World, c: &Case, out: &mut Outcome, verbose: bool) -> 
                 .await?;
             r[0][0].int().unwrap_or(0) == 0 || t[0][0].int().unwrap_or(0) > 0
         }
+        Probe::EdgeRemoved(s, l, dst) => {
+            let r = victim
+                .sql(&format!("SELECT count(*) FROM _edge WHERE src = x'{}' AND label = '{}' AND dest = x'{}'", hex::encode_upper(s), l, hex::encode_upper(dst)))
+                .await?;
+            r[0][0].int().unwrap_or(0) == 0
+        }
     };
     let replay = json!({"kind": format!("{:?}", c.kind), "role": c.role, "date": format!("{:?}", c.date), "variant": format!("{:?}", c.variant), "with_honest": c.with_honest});
     let verdict = format!("{}:{}", if stored { "stored" } else { "rejected" }, if exp.accept { "should-accept" } else { "should-reject" });
@@ -604,7 +632,7 @@ pub async fn run_case(w: &World, c: &Case, out: &mut Outcome, verbose: bool) -> 
                     }
                 }
             }
-            Probe::NodeGone(..) | Probe::EdgeStored(..) | Probe::EdgeGone(..) => {}
+            Probe::NodeGone(..) | Probe::EdgeStored(..) | Probe::EdgeGone(..) | Probe::EdgeRemoved(..) => {}
         }
         for t in traces {
             out.violation(
